@@ -7,6 +7,7 @@ import OVM.Hex.CubeIso
 import OVM.Hex.EightVerts
 import OVM.Hex.VerticesGeneral
 import OVM.Hex.CheckedConv
+import OVM.Hex.VerticesPattern
 /-
   C16 — hexahedral kernel: shape and halfface-order invariants, hex navigation.
   Part 1 is about the tables *generated from the C++ sources* (OVM.Gen.HexTables, T2): an edit of an
@@ -49,9 +50,9 @@ import OVM.Hex.CheckedConv
   Part 5: `add_cell(8 vertices)` stores a `HexConv` cell, symbolically, for eight arbitrary distinct vertices of
   any reachable state with unique edges among them, fresh or pre-existing faces in any rotation / side
   (`add_cell_vertices_conv`); hence `conv_run_api`: histories through the public API need no "created in
-  convention" assumption for the vertex-based path.  `hex_vertices` and the sheet circulators: on concrete
-  cubes (`…_partial`; the symbolic version would need the specification of `adjacent_halfface_in_cell` on the
-  new cell).
+  convention" assumption for the vertex-based path; `hex_vertices` of the new cell reports the documented pattern
+  (`add_cell_vertices_hex_vertices`, symbolic).  The sheet circulators, the orthogonal layout and the two concrete
+  cubes: `…_partial` (kernel evaluation on the standard and on a glued cube).
 -/
 namespace OVM.Props.C16
 open OVM OVM.Kernel OVM.Gen.HexTables OVM.Kernel.HexAll
@@ -497,6 +498,43 @@ theorem add_cell_vertices_conv (k : Kernel) (vs : List Nat) (chk : Bool) (hi : G
     (hloop : ∀ I ∈ cellVFind, ∀ x, k.findHalffaceExtensive (hexPick vs I) = some x → HfLoop k x)
     (c : Nat) (h : (k.hexAddCellV vs chk).2 = some c) : (k.hexAddCellV vs chk).1.hexConvB c = true :=
   hexAddCellV_conv k vs chk hi hvs hd hu hloop c h
+
+/-- **`hex_vertices` of a cell created by `add_cell(8 vertices)` reports the documented cube pattern — symbolically**
+    (same conditions as `add_cell_vertices_conv`, and valid arguments `HexOpOK`: the six halffaces found or created
+    are free and distinct): first four = the first halfface's vertices against its cyclic order from the source of
+    its first halfedge, last four = the opposite halfface's vertices, positions 0-4, 1-7, 2-6, 3-5 joined by edges of
+    the cell, eight distinct vertices (`hexVertsPatternB`, OVM/Hex/Spec.lean).  The walk of `HexVertexIter`
+    (`prev_halfedge_in_halfface`, `adjacent_halfface_in_cell`, `next_halfedge_in_halfface`) is evaluated on the
+    six loops for an arbitrary stored rotation of every face (OVM/Hex/VerticesPattern.lean: `Frame.hexVertices_eq`;
+    which vertex / face / position comes next is decided on the source tables, `tbl_*`). -/
+theorem add_cell_vertices_hex_vertices (k : Kernel) (vs : List Nat) (chk : Bool) (hi : Global.GInv k)
+    (hok : HexOpOK k (.addCellV chk vs)) (hd : vs.Nodup) (hu : UniqEdges k vs)
+    (hloop : ∀ I ∈ cellVFind, ∀ x, k.findHalffaceExtensive (hexPick vs I) = some x → HfLoop k x)
+    (c : Nat) (h : (k.hexAddCellV vs chk).2 = some c) :
+    ∃ r, (k.hexAddCellV vs chk).1.hexVertices c = some r ∧ (k.hexAddCellV vs chk).1.hexVertsPatternB c r = true :=
+  hexAddCellV_pattern k vs chk hi hok hd hu hloop c h
+
+/-- non-vacuity: the second cube of `demoOps`, glued onto the first one through a face that pre-exists in another
+    rotation and is used from its other side, satisfies every hypothesis of the two symbolic theorems -/
+example :
+    let k := hexRun {} (demoOps.take 3)
+    let vs := [7, 11, 10, 6, 4, 5, 9, 8]
+    (k.hexAddCellV vs true).2 = some 1 ∧ (k.hexAddCellV vs true).1.hexConvB 1 = true ∧
+    ∃ r, (k.hexAddCellV vs true).1.hexVertices 1 = some r ∧ (k.hexAddCellV vs true).1.hexVertsPatternB 1 r = true := by
+  intro k vs
+  have hi : Global.GInv k := (shape_reachable (demoOps.take 3) (hexHistoryOK_of_B _ _ (by decide +kernel))).1
+  have hok : HexOpOK k (.addCellV true vs) := hexOpOK_of_B _ _ (by decide +kernel)
+  have hu : UniqEdges k vs := uniqEdges_of_B (by decide +kernel)
+  have hloop : ∀ I ∈ cellVFind, ∀ x, k.findHalffaceExtensive (hexPick vs I) = some x → HfLoop k x := by
+    intro I hI x hx
+    have hb : cellVFind.all (fun I => match k.findHalffaceExtensive (hexPick vs I) with | some x => hfLoopB k x | none => true) = true := by
+      decide +kernel
+    have := List.all_eq_true.mp hb I hI
+    rw [hx] at this
+    exact hfLoop_of_B this
+  have hs : (k.hexAddCellV vs true).2 = some 1 := by decide +kernel
+  exact ⟨hs, add_cell_vertices_conv k vs true hi hok.1 (by decide) hu hloop 1 hs,
+    add_cell_vertices_hex_vertices k vs true hi hok (by decide) hu hloop 1 hs⟩
 
 /-- **histories through the public API**: with valid arguments (`HexOpOK`), cells created by
     `add_cell(8 vertices)` under the conditions of `add_cell_vertices_conv` or by the topology-checked
